@@ -85,6 +85,13 @@ theorem addLexRules_keeps_false :
   revert h1
   decide
 
+/-- both `Nodup` hypotheses are needed: a repeated word hides its later tags from `lexCount` as well -/
+example : lexCount [("w".toList, []), ("w".toList, [("T".toList, 5)])] "w".toList "T".toList = 0 ∧
+    gramCount (addLexRules [] [("w".toList, []), ("w".toList, [("T".toList, 5)])])
+      ["T".toList, "w".toList] [[(0, 0)]] .default = 5 := by decide
+example : lexCount cexLex "w".toList "T".toList = 0 ∧
+    gramCount (addLexRules [] cexLex) ["T".toList, "w".toList] [[(0, 0)]] .default = 5 := by decide
+
 /-- corrected version: with the lexicon a dictionary (keys distinct, as in Python) every other entry keeps its count -/
 theorem addLexRules_keeps (g : Grammar) (lex : Lexicon) (f : Func) (l : Lin) (v : VertKey)
     (hnd : (lex.map (·.1)).Nodup) (hnd2 : ∀ e ∈ lex, (e.2.map (·.1)).Nodup)
@@ -203,5 +210,59 @@ example : decLoparGram exFiles.gram = some (exCF.rules.map fun (f, _, c) => (f, 
 example : decCountLines exFiles.start = some [("S".toList, 3)] := by decide
 /-- a rule without RHS elements is written with a trailing blank and still decodes -/
 example : decLoparGram ["7 X ".toList] = some [(["X".toList], 7)] := by decide
+
+/-! ## PMCFG file -/
+
+/-- PMCFG round trip; the hypothesis that arguments are non-empty is not needed -/
+theorem decPmcfg_write' (g : Grammar) (lex : Lexicon)
+    (hl : ∀ e ∈ g, e.1 ≠ [] ∧ ∀ s ∈ e.1, s ≠ [] ∧ ∀ c ∈ s, pyIsSpace c = false)
+    (hlin : ∀ e ∈ g, ∀ le ∈ e.2, ∀ arg ∈ le.1, ∀ v ∈ arg, 0 ≤ v.1) :
+    decPmcfg (writePmcfg false g lex).1 = some g.rules := by
+  apply decPmcfg_writePmcfg
+  · intro r hr
+    obtain ⟨e, he, le, _, h1, _⟩ := mem_rules g r hr
+    rw [h1]
+    exact hl e he
+  · intro r hr ld hld
+    obtain ⟨e, he, le, hle, _, h2⟩ := mem_rules g r hr
+    rw [h2] at hld
+    exact hlin e he le hle ld hld
+
+/-- stretch: PMCFG and RCG round trips (labels non-empty, whitespace-free, no parentheses / trailing digit for RCG) -/
+theorem decPmcfg_write (g : Grammar) (lex : Lexicon)
+    (hl : ∀ e ∈ g, e.1 ≠ [] ∧ ∀ s ∈ e.1, s ≠ [] ∧ ∀ c ∈ s, pyIsSpace c = false)
+    (hlin : ∀ e ∈ g, ∀ le ∈ e.2, ∀ arg ∈ le.1, arg ≠ [] ∧ ∀ v ∈ arg, 0 ≤ v.1) :
+    decPmcfg (writePmcfg false g lex).1 = some g.rules :=
+  decPmcfg_write' g lex hl (fun e he le hle arg harg => (hlin e he le hle arg harg).2)
+
+example : (writePmcfg false exG exLex).1 =
+    [" fun1 : S <- VP NP".toList, " fun1 = s1".toList, " fun1 3".toList,
+     " fun2 : VP <- V PTK".toList, " fun2 = s2 s3".toList, " fun2 3".toList,
+     " s1 -> 0:0 1:0 0:1".toList, " s2 -> 0:0".toList, " s3 -> 1:0".toList] := by decide
+example : decPmcfg (writePmcfg false exG exLex).1 = some exG.rules := by rfl
+example : decPmcfg (writePmcfg false exG exLex).1 = some exG.rules :=
+  decPmcfg_write exG exLex (by decide) (by decide)
+example : (∀ e ∈ exG, e.1 ≠ [] ∧ ∀ s ∈ e.1, s ≠ [] ∧ ∀ c ∈ s, pyIsSpace c = false) ∧
+    (∀ e ∈ exG, ∀ le ∈ e.2, ∀ arg ∈ le.1, arg ≠ [] ∧ ∀ v ∈ arg, 0 ≤ v.1) := by decide
+/-- labels that look like PMCFG syntax or like generated names do not confuse the decoder
+    (they sit at fixed token positions), nor does a rule without RHS, an empty linearization or a shared sequence -/
+def exOdd : Grammar :=
+  [([":".toList, "->".toList, "=".toList, "fun1".toList, "s1".toList],
+     [([], [(VertKey.default, 3)]), ([[(0, 0)], [(0, 0)], [(1, 0)]], [(VertKey.default, 2)])]),
+   (["fun1".toList], [([[(0, 0)], [(1, 0)]], [(VertKey.default, 7)])])]
+example : decPmcfg (writePmcfg false exOdd exLex).1 = some exOdd.rules := by rfl
+
+/-
+  Status of the statements of the brief
+  * proved exactly as stated: `lopar_refuses_iff`, `addLexRules_count`, `strToNat_natToStr`, `splitWs_unwords`,
+    `decLex_lexLines`, `decLoparGram_write`, `lopar_start`, `decPmcfg_write` (its hypothesis `arg ≠ []` is not
+    used: `decPmcfg_write'`; no side condition on labels equal to ":", "<-", "->", "=" or on rules without RHS is
+    needed, the decoder looks at fixed token positions: `exOdd`).
+  * `addLexRules_keeps` as stated is false for association lists with a repeated word or a repeated tag
+    (`addLexRules_keeps_false`, counterexample `cexLex`); it is proved with the two `Nodup` hypotheses of
+    `addLexRules_count` added (Python dicts always satisfy them); `addLexRules_keeps_other` needs no hypothesis
+    on the lexicon.
+  * not covered here: the RCG writer/reader pair (`rcgLine` / `readRcgLine`), for which the brief gives no statement.
+-/
 
 end TT.Props.C09
